@@ -240,7 +240,7 @@ func c33Damage(h *H, repo *repository.Repository, be *mem.MemoryBackend) string 
 			p := packs[h.Intn(len(packs))]
 			raw := a16Raw(be, backend.PackFile, p.ID.String())
 			if len(raw) > 0 {
-				back := 1 + h.Intn(minInt(len(raw), 80))
+				back := 1 + h.Intn(c33MinInt(len(raw), 80))
 				raw[len(raw)-back] ^= byte(1 << uint(h.Intn(8)))
 				a16Replace(be, backend.PackFile, p.ID.String(), raw)
 				return "pack-flip-header"
@@ -287,7 +287,7 @@ func c33Damage(h *H, repo *repository.Repository, be *mem.MemoryBackend) string 
 	return "none"
 }
 
-func minInt(a, b int) int {
+func c33MinInt(a, b int) int {
 	if a < b {
 		return a
 	}
